@@ -1,6 +1,10 @@
 import HclModel
 import HclModel.Expr.FreeVars
 import HclModel.Conc.SymbolTable
+import HclModel.Write.Nodes
+import HclModel.Write.StringLit
+import HclModel.Lex.Pos
+import HclModel.Syntax.TypeExpr
 open HclModel
 
 structure St where
@@ -36,6 +40,25 @@ def parseTok (s : String) : Option Format.Tok :=
     pure { ty := ← ty.toNat?, isIn := isIn == "1", nl := nl == "1", width := ← w.toNat?, sp := ← sp.toNat? }
   | _ => none
 
+partial def ctyOfSexp : Sexp → Option TypeExpr.CTy
+  | .atom "string" => some .str
+  | .atom "number" => some .num
+  | .atom "bool" => some .bool
+  | .atom "dyn" => some .any
+  | .list [.atom "list", t] => TypeExpr.CTy.list <$> ctyOfSexp t
+  | .list [.atom "set", t] => TypeExpr.CTy.set <$> ctyOfSexp t
+  | .list [.atom "map", t] => TypeExpr.CTy.map <$> ctyOfSexp t
+  | .list (.atom "tuple" :: ts) => TypeExpr.CTy.tuple <$> ts.mapM ctyOfSexp
+  | .list (.atom "object" :: fs) => TypeExpr.CTy.object <$> fs.mapM fun f =>
+      match f with
+      | .list [.atom k, t] => do pure (← hexString? k, ← ctyOfSexp t)
+      | _ => none
+  | _ => none
+
+def tokText : TypeExpr.Tok → String
+  | .ident s => s | .lparen => "(" | .rparen => ")" | .lbrack => "[" | .rbrack => "]"
+  | .lbrace => "{" | .rbrace => "}" | .comma => "," | .eq => "="
+
 def handle (st : St) (line : String) : St × String :=
   if line.startsWith "EVAL " then
     match Sexp.parseMany (line.drop 5).toString with
@@ -49,6 +72,16 @@ def handle (st : St) (line : String) : St × String :=
     match Sexp.parseMany (line.drop 5).toString with
     | some [e, a, b] => (st, concLine e a b)
     | _ => (st, "bad-op")
+  else if line.startsWith "TYPE " then
+    -- TYPE <type>  →  the tokens of TypeString, and whether reading them back gives the same type
+    match (Sexp.parse (line.drop 5).toString).bind ctyOfSexp with
+    | some ty =>
+      let toks := TypeExpr.typeString ty
+      let back := match TypeExpr.parseType toks with
+        | some ty' => if (TypeExpr.typeString ty') == toks then "same" else "different"
+        | none => "unparseable"
+      (st, " ".intercalate (toks.map tokText) ++ " | " ++ back)
+    | none => (st, "unsupported-input")
   else if line.startsWith "VARS " then
     match Sexp.parse (line.drop 5).toString with
     | some e =>
@@ -80,6 +113,65 @@ def handle (st : St) (line : String) : St × String :=
       | some node => (st, "acc " ++ Json.dump node)
       | none => (st, "rej")
     | _, _ => (st, "bad-op")
+  | ["STRESC", cps] =>
+    -- STRESC <cp>:<isPrint 0|1>,...  →  escaped code points (hclwrite.escapeQuotedStringLit)
+    let items : Option (List (Nat × Bool)) := (if cps == "-" then some [] else (cps.splitOn ",").mapM fun it =>
+      match it.splitOn ":" with
+      | [c, f] => do pure (← c.toNat?, f == "1")
+      | _ => none)
+    match items with
+    | some l =>
+      let chars := l.map fun p => Char.ofNat p.1
+      let printable : Char → Bool := fun c => (l.find? fun p => p.1 == c.toNat).map (·.2) |>.getD true
+      let out := StringLit.escape printable chars
+      (st, if out.isEmpty then "-" else ",".intercalate (out.map fun c => toString c.toNat))
+    | none => (st, "bad-op")
+  | ["STRPARSE", cps] =>
+    -- STRPARSE <cp>,...  →  what the characters between the quotes denote, or "none"
+    match (if cps == "-" then some [] else (cps.splitOn ",").mapM (·.toNat?)) with
+    | some l =>
+      (match StringLit.parseQuoted (l.map Char.ofNat) with
+       | some r => (st, if r.isEmpty then "-" else ",".intercalate (r.map fun c => toString c.toNat))
+       | none => (st, "none"))
+    | none => (st, "bad-op")
+  | "POS" :: startB :: startL :: startC :: segs =>
+    -- POS <byte> <line> <col> t<ty>:<len>.<nl>,<len>.<nl>... | g<n> ...  →  ty:sb.sl.sc-eb.el.ec ...
+    let parseSeg (x : String) : Option Pos.Seg :=
+      if x.startsWith "g" then (x.drop 1).toString.toNat?.map Pos.Seg.gap
+      else if x.startsWith "t" then
+        match ((x.drop 1).toString).splitOn ":" with
+        | [ty, cls] => do
+          let ty ← ty.toNat?
+          let cl ← (if cls == "" then some [] else (cls.splitOn ",").mapM fun c =>
+            match c.splitOn "." with
+            | [len, nl] => do pure (⟨← len.toNat?, nl == "1"⟩ : Pos.Cl)
+            | _ => none)
+          pure (Pos.Seg.tok ty cl)
+        | _ => none
+      else none
+    match startB.toNat?, startL.toNat?, startC.toNat?, (segs.filter (· ≠ "")).mapM parseSeg with
+    | some b, some l, some c, some sg =>
+      let rs := Pos.emitAll ⟨b, l, c⟩ 0 sg
+      (st, " ".intercalate (rs.map fun r => s!"{r.ty}:{r.start.byte}.{r.start.line}.{r.start.col}-{r.stop.byte}.{r.stop.line}.{r.stop.col}"))
+    | _, _, _, _ => (st, "bad-op")
+  | "WOP" :: ops =>
+    -- WOP set:<name>:<expr> | rm:<name> | ren:<src>:<dst> | blk:<type>:<l1,l2|->:<id> | rmb:<id> | nl ...
+    let parsed : Option (List Nodes.Op) := (ops.filter (· ≠ "")).mapM fun o =>
+      match o.splitOn ":" with
+      | ["set", n, e] => do pure (Nodes.Op.setAttr n (← e.toNat?))
+      | ["rm", n] => some (Nodes.Op.removeAttr n)
+      | ["ren", a, b] => some (Nodes.Op.renameAttr a b)
+      | ["blk", t, ls, id] => do pure (Nodes.Op.appendBlock t (if ls == "-" then [] else ls.splitOn ",") (← id.toNat?))
+      | ["rmb", id] => do pure (Nodes.Op.removeBlock (← id.toNat?))
+      | ["nl"] => some Nodes.Op.appendNewline
+      | _ => none
+    match parsed with
+    | some os =>
+      let items := Nodes.abs (Nodes.runOps Nodes.St.init os)
+      (st, " ".intercalate (items.map fun i => match i with
+        | .attr n e => s!"a.{n}.{e}"
+        | .block t ls _ => s!"b.{t}." ++ (if ls.isEmpty then "-" else ",".intercalate ls)))
+    | none => (st, "bad-op")
   | "SYMTAB" :: ops =>
     -- SYMTAB s:<key>:<val> | c:<key> | g:<key> ...  →  observed gets ("-" = no entry) and the final table size
     let parsed : Option (List Conc.Op) := (ops.filter (· ≠ "")).mapM fun o =>
